@@ -89,8 +89,8 @@ Proof.
 Qed.
 
 (* ---------- the trace projection ---------- *)
-Lemma acts_cons t s n' sc' tm' a b d e f g h i :
-  acts (St n' (t :: tr s) sc' tm' a b d e f g h i) = acts s ++ (if is_act t then [t] else []).
+Lemma acts_cons t s n' sc' tm' a b d e f g h i j k l :
+  acts (St n' (t :: tr s) sc' tm' a b d e f g h i j k l) = acts s ++ (if is_act t then [t] else []).
 Proof.
   unfold acts. cbn [tr rev]. rewrite filter_app. cbn [filter]. destruct (is_act t); reflexivity.
 Qed.
@@ -100,144 +100,197 @@ Variable c : config.
 Variable p : list (Z * fault).
 Notation P := (plan_at p).
 
+(* PopUpTarget's bookkeeping is consistent: it remembers a pop-up widget only while its current widget
+   is the Overlay built for it, and it has an Overlay only under pop_ups=True *)
+Definition pinv (s : st) : Prop :=
+  (t_pop s = true -> t_overlay s = true) /\ (t_overlay s = true -> c_pop_ups c = true).
+
 (* what the operations inside the loop leave alone: the Screen object and every terminal mode
-   except cursor visibility (which stop() forces anyway); a plain screen writes no mode at all *)
+   except cursor visibility (which stop() forces anyway); a plain screen writes no mode at all;
+   the pop-up bookkeeping stays consistent *)
 Definition Keeps (s s' : st) : Prop :=
-  scr s' = scr s /\ set_mode 25 true (tm s') = set_mode 25 true (tm s) /\ (c_hook c = false -> tm s' = tm s).
+  scr s' = scr s /\ set_mode 25 true (tm s') = set_mode 25 true (tm s) /\ (c_hook c = false -> tm s' = tm s) /\
+  (pinv s -> pinv s').
 
 Lemma Keeps_refl s : Keeps s s.
-Proof. unfold Keeps. repeat split. Qed.
+Proof. unfold Keeps. split; [reflexivity|split; [reflexivity|split; [intros; reflexivity|intros H; exact H]]]. Qed.
 Lemma Keeps_trans a b d : Keeps a b -> Keeps b d -> Keeps a d.
 Proof.
-  intros (A1 & A2 & A3) (B1 & B2 & B3). unfold Keeps. repeat split; try congruence.
+  intros (A1 & A2 & A3 & A4) (B1 & B2 & B3 & B4). unfold Keeps.
+  split; [congruence|split; [congruence|split; [|intros H; apply B4; apply A4; exact H]]].
   intros H. rewrite (B3 H). apply A3. exact H.
 Qed.
-Ltac keeps_triv := unfold Keeps; repeat split; try (intros; reflexivity).
+Ltac keeps_triv := unfold Keeps, pinv; cbn [scr tm t_pop t_overlay]; repeat split; try (intros; reflexivity); try tauto.
 
 Definition outcome {A} (r0 : res A) (o : option fault) : res A :=
   match o with None => r0 | Some f => RErr (exn_of f) end.
 
-(* [SemA al m L r0 Q]: from any state with a started screen and pending alarms [al], [m] performs
-   the actions of [L] cut at the first planned fault, numbering the callbacks from the current
-   index; its result is [r0] when no fault was hit (and then the pending alarms satisfy [Q]) and
-   exactly the planned exception otherwise. *)
-Definition SemA {A} (al : list alarm) (m : M A) (L : list tev) (r0 : res A) (Q : list alarm -> Prop) : Prop :=
-  forall s, s_started (scr s) = true -> alarms s = al ->
+(* [SemA Pre m L r0 Post]: from any state with a started screen, consistent pop-up bookkeeping and
+   [Pre], [m] performs the actions of [L] cut at the first planned fault, numbering the callbacks from
+   the current index; its result is [r0] when no fault was hit (and then [Post] holds) and exactly the
+   planned exception otherwise. *)
+Definition SemA {A} (Pre : st -> Prop) (m : M A) (L : list tev) (r0 : res A) (Post : st -> Prop) : Prop :=
+  forall s, s_started (scr s) = true -> pinv s -> Pre s ->
     Keeps s (snd (m s)) /\
     acts (snd (m s)) = acts s ++ fst (cut P (n s) L) /\
     n (snd (m s)) = n s + ncb (fst (cut P (n s) L)) /\
     fst (m s) = outcome r0 (snd (cut P (n s) L)) /\
-    (snd (cut P (n s) L) = None -> Q (alarms (snd (m s)))).
-(* the common case: returns [v], leaves the pending alarms alone *)
-Definition Sem {A} (m : M A) (L : list tev) (v : A) : Prop := forall al, SemA al m L (ROk v) (eq al).
+    (snd (cut P (n s) L) = None -> Post (snd (m s))).
+(* the ghost state the specification lists depend on: pending alarms, is the launcher's pop-up open *)
+Definition G (al : list alarm) (o : bool) (s : st) : Prop := alarms s = al /\ l_pop s = o.
+(* returns [v]; pop-up open before: [o], after: [o'] *)
+Definition SemO {A} (o : bool) (m : M A) (L : list tev) (v : A) (o' : bool) : Prop :=
+  forall al, SemA (G al o) m L (ROk v) (G al o').
+(* the common case: leaves alarms and pop-up alone *)
+Definition Sem {A} (m : M A) (L : list tev) (v : A) : Prop := forall o, SemO o m L v o.
 
-Lemma SemA_bind {A B} al (m : M A) (f : A -> M B) L1 L2 v r Q1 Q2 :
-  SemA al m L1 (ROk v) Q1 -> (forall al1, Q1 al1 -> SemA al1 (f v) L2 r Q2) ->
-  SemA al (bindM m f) (L1 ++ L2) r Q2.
+Lemma SemA_bind {A B} Pre (m : M A) (f : A -> M B) L1 L2 v r Q1 Q2 :
+  SemA Pre m L1 (ROk v) Q1 -> SemA Q1 (f v) L2 r Q2 -> SemA Pre (bindM m f) (L1 ++ L2) r Q2.
 Proof.
-  intros Hm Hf s Hs Ha. destruct (Hm s Hs Ha) as (K1 & A1 & N1 & R1 & Q1').
+  intros Hm Hf s Hs Hp Ha. destruct (Hm s Hs Hp Ha) as (K1 & A1 & N1 & R1 & Q1').
   unfold bindM. rewrite cut_app.
   destruct (m s) as [r1 s1] eqn:E. cbn [fst snd] in *.
   destruct (snd (cut P (n s) L1)) as [ft|] eqn:C1; cbn [outcome] in R1; subst r1.
   - cbn [fst snd]. split; [exact K1|split; [exact A1|split; [exact N1|split; [rewrite C1; reflexivity|]]]].
     rewrite C1. discriminate.
   - assert (Hs1 : s_started (scr s1) = true) by (destruct K1 as [K _]; rewrite K; exact Hs).
-    destruct (Hf _ (Q1' eq_refl) s1 Hs1 eq_refl) as (K2 & A2 & N2 & R2 & Q2'). rewrite N1 in *.
+    assert (Hp1 : pinv s1) by (apply K1; exact Hp).
+    destruct (Hf s1 Hs1 Hp1 (Q1' eq_refl)) as (K2 & A2 & N2 & R2 & Q2'). rewrite N1 in *.
     destruct (f v s1) as [r2 s2]. cbn [fst snd] in *.
     split; [eapply Keeps_trans; eassumption|].
     split; [rewrite A2, A1, app_assoc; reflexivity|].
     split; [rewrite N2, ncb_app; lia|]. split; [exact R2|exact Q2'].
 Qed.
 
+Lemma SemA_weaken {A} (Pre Pre' : st -> Prop) (m : M A) L r Q :
+  (forall s, Pre' s -> Pre s) -> SemA Pre m L r Q -> SemA Pre' m L r Q.
+Proof. intros H Hm s Hs Hp Ha. apply Hm; auto. Qed.
+
+Lemma SemA_post {A} (Pre : st -> Prop) (m : M A) L r (Q Q' : st -> Prop) :
+  (forall s, Q s -> Q' s) -> SemA Pre m L r Q -> SemA Pre m L r Q'.
+Proof.
+  intros H Hm s Hs Hp Ha. destruct (Hm s Hs Hp Ha) as (K & A1 & N1 & R1 & Q1).
+  split; [exact K|split; [exact A1|split; [exact N1|split; [exact R1|intros C; apply H; apply Q1; exact C]]]].
+Qed.
+
+Lemma SemO_bind {A B} o o1 o2 (m : M A) (f : A -> M B) L1 L2 v w :
+  SemO o m L1 v o1 -> SemO o1 (f v) L2 w o2 -> SemO o (bindM m f) (L1 ++ L2) w o2.
+Proof. intros Hm Hf al. eapply SemA_bind; [apply Hm|apply Hf]. Qed.
+
 Lemma Sem_bind {A B} (m : M A) (f : A -> M B) L1 L2 v w :
   Sem m L1 v -> Sem (f v) L2 w -> Sem (bindM m f) (L1 ++ L2) w.
-Proof. intros Hm Hf al. eapply SemA_bind; [apply Hm|]. intros al1 <-. apply Hf. Qed.
+Proof. intros Hm Hf o. eapply SemO_bind; [apply Hm|apply Hf]. Qed.
 
-(* a step that leaves the alarms alone, followed by anything *)
-Lemma SemA_step {A B} al (m : M A) (f : A -> M B) L1 L2 v r Q :
-  Sem m L1 v -> SemA al (f v) L2 r Q -> SemA al (bindM m f) (L1 ++ L2) r Q.
-Proof. intros Hm Hf. eapply SemA_bind; [apply Hm|]. intros al1 <-. exact Hf. Qed.
+(* a step that leaves the ghost state alone, followed by anything *)
+Lemma SemA_step {A B} al o (m : M A) (f : A -> M B) L1 L2 v r Q :
+  Sem m L1 v -> SemA (G al o) (f v) L2 r Q -> SemA (G al o) (bindM m f) (L1 ++ L2) r Q.
+Proof. intros Hm Hf. eapply SemA_bind; [apply Hm|exact Hf]. Qed.
+
+Lemma SemO_step {A B} o o2 (m : M A) (f : A -> M B) L1 L2 v w :
+  Sem m L1 v -> SemO o (f v) L2 w o2 -> SemO o (bindM m f) (L1 ++ L2) w o2.
+Proof. intros Hm Hf. eapply SemO_bind; [apply Hm|exact Hf]. Qed.
+
+Lemma Sem_SemO {A} o (m : M A) L v : Sem m L v -> SemO o m L v o.
+Proof. intros H; apply H. Qed.
+
+(* a state update that touches nothing the framework looks at *)
+Lemma SemA_quiet {A} (Pre Post : st -> Prop) (m : M A) (v : A) :
+  (forall s, fst (m s) = ROk v /\ n (snd (m s)) = n s /\ acts (snd (m s)) = acts s /\ Keeps s (snd (m s))) ->
+  (forall s, Pre s -> Post (snd (m s))) ->
+  SemA Pre m [] (ROk v) Post.
+Proof.
+  intros H HQ s Hs Hp Ha. destruct (H s) as (R & N & A1 & K).
+  cbn [cut fst snd ncb outcome]. rewrite app_nil_r, Z.add_0_r.
+  split; [exact K|split; [exact A1|split; [exact N|split; [exact R|intros _; apply HQ; exact Ha]]]].
+Qed.
 
 Lemma Sem_ret {A} (v : A) : Sem (ret v) [] v.
 Proof.
-  intros al s Hs Ha. cbn [ret fst snd cut ncb outcome]. rewrite app_nil_r, Z.add_0_r.
-  split; [apply Keeps_refl|]. repeat split; try reflexivity. intros _. symmetry; exact Ha.
+  intros o al. apply SemA_quiet; [|intros s H; exact H].
+  intros s. cbn [ret fst snd]. split; [reflexivity|split; [reflexivity|split; [reflexivity|apply Keeps_refl]]].
 Qed.
 
 Lemma Sem_seq {A} (m : M unit) (k : M A) L1 L2 w :
   Sem m L1 tt -> Sem k L2 w -> Sem (bindM m (fun _ => k)) (L1 ++ L2) w.
 Proof. intros; eapply Sem_bind; eassumption. Qed.
 
+Lemma SemA_get {A B} Pre (g : st -> A) (k : A -> M B) L r Q :
+  (forall x, SemA (fun s => Pre s /\ g s = x) (k x) L r Q) -> SemA Pre (bindM (get g) k) L r Q.
+Proof. intros H s Hs Hp Ha. unfold bindM, get. apply (H (g s)); auto. Qed.
+
 Lemma Sem_get {A B} (g : st -> A) (k : A -> M B) L w :
   (forall x, Sem (k x) L w) -> Sem (bindM (get g) k) L w.
-Proof. intros H al s Hs Ha. unfold bindM, get. apply H; assumption. Qed.
+Proof. intros H o al s Hs Hp Ha. unfold bindM, get. apply H; assumption. Qed.
+
+Lemma SemO_get {A B} o o' (g : st -> A) (k : A -> M B) L w :
+  (forall x, SemO o (k x) L w o') -> SemO o (bindM (get g) k) L w o'.
+Proof. intros H al s Hs Hp Ha. unfold bindM, get. apply H; assumption. Qed.
 
 Lemma Sem_cb t : is_cb t = true -> Sem (cb p t) [t] tt.
 Proof.
-  intros Ht al s Hs Ha. unfold cb. cbn [cut]. rewrite Ht.
+  intros Ht o al s Hs Hp Ha. unfold cb. cbn [cut]. rewrite Ht.
   assert (Hact : is_act t = true) by (unfold is_act; rewrite Ht; reflexivity).
   destruct (P (n s)) eqn:Ep; cbn [fst snd ncb outcome]; rewrite ?acts_cons, ?Hact, ?Ht;
     (split; [keeps_triv|split; [reflexivity|split; [cbn [n]; lia|split; [reflexivity|]]]]).
   - discriminate.
-  - intros _. symmetry; exact Ha.
+  - intros _. exact Ha.
 Qed.
 
 Lemma Sem_emit_silent t : is_act t = false -> Sem (emit t) [] tt.
 Proof.
-  intros Ht al s Hs Ha. unfold emit. cbn [fst snd cut ncb outcome]. rewrite acts_cons, Ht.
-  split; [keeps_triv|split; [reflexivity|split; [cbn [n]; lia|split; [reflexivity|]]]].
-  intros _. symmetry; exact Ha.
+  intros Ht o al. apply SemA_quiet; [|intros s H; exact H].
+  intros s. unfold emit. cbn [fst snd n]. rewrite acts_cons, Ht, app_nil_r.
+  split; [reflexivity|split; [reflexivity|split; [reflexivity|keeps_triv]]].
 Qed.
 
 Lemma Sem_emit_draw : Sem (emit TDraw) [TDraw] tt.
 Proof.
-  intros al s Hs Ha. unfold emit. cbn [fst snd cut ncb outcome is_cb]. rewrite acts_cons. cbn [is_act is_cb orb].
+  intros o al s Hs Hp Ha. unfold emit. cbn [fst snd cut ncb outcome is_cb]. rewrite acts_cons. cbn [is_act is_cb orb].
   split; [keeps_triv|split; [reflexivity|split; [cbn [n]; lia|split; [reflexivity|]]]].
-  intros _. symmetry; exact Ha.
+  intros _. exact Ha.
 Qed.
 
+Ltac quiet_setter := intros o al; apply SemA_quiet;
+  [intros s; cbn [fst snd]; split; [reflexivity|split; [reflexivity|split; [reflexivity|keeps_triv]]]|intros s H; exact H].
+
 Lemma Sem_set_size_known b : Sem (set_size_known b) [] tt.
-Proof.
-  intros al s Hs Ha. unfold set_size_known. cbn [fst snd cut ncb outcome]. rewrite app_nil_r, Z.add_0_r.
-  split; [keeps_triv|]. repeat split; try reflexivity. intros _. symmetry; exact Ha.
-Qed.
+Proof. unfold set_size_known. quiet_setter. Qed.
 Lemma Sem_set_hooked b : Sem (set_hooked b) [] tt.
-Proof.
-  intros al s Hs Ha. unfold set_hooked. cbn [fst snd cut ncb outcome]. rewrite app_nil_r, Z.add_0_r.
-  split; [keeps_triv|]. repeat split; try reflexivity. intros _. symmetry; exact Ha.
-Qed.
+Proof. unfold set_hooked. quiet_setter. Qed.
 Lemma Sem_set_wstate v : Sem (set_wstate v) [] tt.
-Proof.
-  intros al s Hs Ha. unfold set_wstate. cbn [fst snd cut ncb outcome]. rewrite app_nil_r, Z.add_0_r.
-  split; [keeps_triv|]. repeat split; try reflexivity. intros _. symmetry; exact Ha.
-Qed.
+Proof. unfold set_wstate. quiet_setter. Qed.
 Lemma Sem_set_buf_ok b : Sem (set_buf_ok b) [] tt.
+Proof. unfold set_buf_ok. quiet_setter. Qed.
+Lemma Sem_set_buf_canvas oc : Sem (set_buf_canvas oc) [] tt.
+Proof. unfold set_buf_canvas. quiet_setter. Qed.
+
+Lemma SemA_set_alarms al o l : SemA (G al o) (set_alarms l) [] (ROk tt) (G l o).
 Proof.
-  intros al s Hs Ha. unfold set_buf_ok. cbn [fst snd cut ncb outcome]. rewrite app_nil_r, Z.add_0_r.
-  split; [keeps_triv|]. repeat split; try reflexivity. intros _. symmetry; exact Ha.
+  apply SemA_quiet.
+  - intros s. unfold set_alarms. cbn [fst snd]. split; [reflexivity|split; [reflexivity|split; [reflexivity|keeps_triv]]].
+  - intros s [_ Ho]. unfold set_alarms, G. cbn [snd alarms l_pop]. split; [reflexivity|exact Ho].
 Qed.
-Lemma Sem_set_buf_canvas o : Sem (set_buf_canvas o) [] tt.
+Lemma SemA_get_alarms {B} al o (k : list alarm -> M B) L r Q :
+  SemA (G al o) (k al) L r Q -> SemA (G al o) (bindM (get alarms) k) L r Q.
+Proof. intros H s Hs Hp Ha. unfold bindM, get. destruct Ha as [Ha Ho]. rewrite Ha. apply H; [assumption|assumption|split; assumption]. Qed.
+
+(* the launcher opens / closes its pop-up *)
+Lemma SemO_set_l_pop o b : SemO o (set_l_pop b) [] tt b.
 Proof.
-  intros al s Hs Ha. unfold set_buf_canvas. cbn [fst snd cut ncb outcome]. rewrite app_nil_r, Z.add_0_r.
-  split; [keeps_triv|]. repeat split; try reflexivity. intros _. symmetry; exact Ha.
+  intros al. apply SemA_quiet.
+  - intros s. unfold set_l_pop. cbn [fst snd]. split; [reflexivity|split; [reflexivity|split; [reflexivity|keeps_triv]]].
+  - intros s [Ha _]. unfold set_l_pop, G. cbn [snd alarms l_pop]. split; [exact Ha|reflexivity].
 Qed.
-Lemma SemA_set_alarms al l : SemA al (set_alarms l) [] (ROk tt) (eq l).
-Proof.
-  intros s Hs Ha. unfold set_alarms. cbn [fst snd cut ncb outcome]. rewrite app_nil_r, Z.add_0_r.
-  split; [keeps_triv|]. repeat split; reflexivity.
-Qed.
-Lemma SemA_get_alarms {B} al (k : list alarm -> M B) L r Q :
-  SemA al (k al) L r Q -> SemA al (bindM (get alarms) k) L r Q.
-Proof. intros H s Hs Ha. unfold bindM, get. rewrite Ha. apply H; assumption. Qed.
 
 Lemma set_mode_cursor_idem b t : set_mode 25 true (set_mode 25 b t) = set_mode 25 true t.
 Proof. reflexivity. Qed.
 
 Lemma Sem_upd_cursor b : c_hook c = true -> Sem (upd_tm (set_mode 25 b)) [] tt.
 Proof.
-  intros Hh al s Hs Ha. unfold upd_tm. cbn [fst snd cut ncb outcome scr tm n]. rewrite app_nil_r, Z.add_0_r.
-  split; [unfold Keeps; cbn [scr tm]; split; [reflexivity|split; [apply set_mode_cursor_idem|congruence]]|].
-  repeat split; try reflexivity. intros _. symmetry; exact Ha.
+  intros Hh o al. apply SemA_quiet; [|intros s H; exact H].
+  intros s. unfold upd_tm. cbn [fst snd]. split; [reflexivity|split; [reflexivity|split; [reflexivity|]]].
+  unfold Keeps, pinv. cbn [scr tm t_pop t_overlay].
+  split; [reflexivity|split; [apply set_mode_cursor_idem|split; [congruence|tauto]]].
 Qed.
 
 Lemma Sem_write_cursor b : c_hook c = true -> Sem (write_mode 25 b) [] tt.
@@ -248,16 +301,71 @@ Qed.
 
 Lemma Sem_conv {A} (m : M A) L L' v : Sem m L v -> L = L' -> Sem m L' v.
 Proof. intros H <-; exact H. Qed.
-Lemma SemA_conv {A} al (m : M A) L L' r Q : SemA al m L r Q -> L = L' -> SemA al m L' r Q.
+Lemma SemO_conv {A} o o' (m : M A) L L' v : SemO o m L v o' -> L = L' -> SemO o m L' v o'.
+Proof. intros H <-; exact H. Qed.
+Lemma SemA_conv {A} Pre (m : M A) L L' r Q : SemA Pre m L r Q -> L = L' -> SemA Pre m L' r Q.
 Proof. intros H <-; exact H. Qed.
 
 Lemma Sem_when (b : bool) (m : M unit) L : Sem m L tt -> Sem (if b then m else ret tt) (if b then L else []) tt.
 Proof. destruct b; [auto|intros; apply Sem_ret]. Qed.
 
-(* ---------- the topmost widget ---------- *)
-Lemma Sem_update_overlay : Sem (update_overlay c p) (overlay_spec c) tt.
+Hypothesis wf : wf_config c.
+Lemma wf_mouse : c_pop_ups c = true -> w_has_mouse c = true.
 Proof.
-  unfold update_overlay, overlay_spec. destruct (c_pop_ups c); [apply Sem_cb; reflexivity|apply Sem_ret].
+  intros H. unfold wf_config, wf_configb in wf. rewrite H in wf. cbn in wf.
+  destruct (w_has_mouse c); [reflexivity|discriminate].
+Qed.
+
+(* ---------- the topmost widget ---------- *)
+(* after PopUpTarget._update_overlay the Overlay is current exactly when the launcher's pop-up is open *)
+Definition Synced (al : list alarm) (o : bool) (s : st) : Prop := G al o s /\ t_overlay s = pop_shown c o.
+
+(* the part of _update_overlay after the render *)
+Definition overlay_bookkeeping : M unit :=
+  bindM (get l_pop) (fun lp =>
+    if lp then
+      bindM (get t_pop) (fun tp =>
+        if tp then bindM (get t_overlay) (fun ov => if ov then ret tt else raise (PyErr 1))
+        else bindM (set_t_pop true) (fun _ => set_t_overlay true))
+    else bindM (set_t_pop false) (fun _ => set_t_overlay false)).
+
+Lemma SemA_overlay_bookkeeping al o :
+  c_pop_ups c = true -> SemA (G al o) overlay_bookkeeping [] (ROk tt) (Synced al o).
+Proof.
+  intros Epu s Hs Hp Ha.
+  destruct s as [n0 tr0 sc0 tm0 sk0 cn0 ir0 hk0 al0 ws0 bo0 bc0 lp0 tp0 ov0].
+  unfold pinv, Synced, pop_shown, G in *. cbn [t_pop t_overlay alarms l_pop scr] in *. destruct Ha as [-> ->]. rewrite Epu.
+  cbn [cut fst snd ncb outcome]. rewrite app_nil_r, Z.add_0_r.
+  unfold overlay_bookkeeping, bindM, get, set_t_pop, set_t_overlay, ret, raise. cbn [l_pop t_pop t_overlay].
+  destruct Hp as [Hp1 Hp2].
+  destruct o; [destruct tp0; [rewrite (Hp1 eq_refl)|]|]; cbn;
+    (split; [unfold Keeps, pinv; cbn [scr tm t_pop t_overlay];
+             split; [reflexivity|split; [reflexivity|split; [intros; reflexivity|intros _; split; [auto|intros _; exact Epu]]]]|]);
+    (split; [reflexivity|split; [reflexivity|split; [reflexivity|intros _; cbn [alarms l_pop t_overlay]; auto]]]).
+Qed.
+
+Lemma SemA_update_overlay al o :
+  SemA (G al o) (update_overlay c p) (overlay_spec c) (ROk tt) (Synced al o).
+Proof.
+  unfold overlay_spec. destruct (c_pop_ups c) eqn:Epu.
+  - assert (E : update_overlay c p = bindM (cb p TRender) (fun _ => overlay_bookkeeping))
+      by (unfold update_overlay; rewrite Epu; reflexivity).
+    rewrite E. eapply SemA_conv; [eapply SemA_step; [apply Sem_cb; reflexivity|apply SemA_overlay_bookkeeping; exact Epu]|reflexivity].
+  - unfold update_overlay. rewrite Epu.
+    intros s Hs Hp [Ha Ho]. cbn [ret fst snd cut ncb outcome]. rewrite app_nil_r, Z.add_0_r.
+    split; [apply Keeps_refl|]. split; [reflexivity|split; [reflexivity|split; [reflexivity|]]].
+    intros _. split; [split; assumption|]. unfold pop_shown. rewrite Epu. cbn [andb].
+    destruct (t_overlay s) eqn:E; [|reflexivity].
+    destruct Hp as [_ Hp2]. rewrite (Hp2 E) in Epu. discriminate.
+Qed.
+
+Lemma Sem_update_overlay : Sem (update_overlay c p) (overlay_spec c) tt.
+Proof. intros o al. eapply SemA_post; [|apply SemA_update_overlay]. intros s [H _]; exact H. Qed.
+
+Lemma SemA_get_overlay {B} al o (k : bool -> M B) L r Q :
+  SemA (G al o) (k (pop_shown c o)) L r Q -> SemA (Synced al o) (bindM (get t_overlay) k) L r Q.
+Proof.
+  intros H s Hs Hp [Ha Hov]. unfold bindM, get. rewrite Hov. apply H; assumption.
 Qed.
 
 Lemma Sem_widget_changed : Sem widget_changed [] tt.
@@ -266,12 +374,21 @@ Proof. unfold widget_changed. apply Sem_get. intros ws. apply Sem_set_wstate. Qe
 Lemma Sem_changed_if (b : bool) : Sem (if b then widget_changed else ret tt) [] tt.
 Proof. destruct b; [apply Sem_widget_changed|apply Sem_ret]. Qed.
 
-Lemma Sem_topmost_keypress x :
-  Sem (topmost_keypress c p x) (overlay_spec c ++ [TKeypress x]) (widget_keypress c x).
+Lemma SemO_topmost_keypress o x :
+  SemO o (topmost_keypress c p x) (overlay_spec c ++ [keypress_cb c o x]) (keypress_result c o x) (keypress_open c o x).
 Proof.
-  unfold topmost_keypress. apply Sem_seq; [apply Sem_update_overlay|].
-  eapply Sem_conv; [eapply Sem_seq; [apply Sem_cb; reflexivity|]|reflexivity].
-  eapply Sem_conv; [eapply Sem_seq; [apply Sem_changed_if|apply Sem_ret]|reflexivity].
+  intros al. unfold topmost_keypress, keypress_cb, keypress_result, keypress_open.
+  eapply SemA_bind; [apply SemA_update_overlay|]. apply SemA_get_overlay.
+  destruct (pop_shown c o) eqn:Eps.
+  - eapply SemA_conv; [eapply SemA_step; [apply Sem_cb; reflexivity|]|reflexivity].
+    destruct (x =? 120).
+    + eapply SemA_conv; [eapply SemA_bind; [apply SemO_set_l_pop|apply Sem_ret]|reflexivity].
+    + apply Sem_ret.
+  - destruct (c_launcher c && (x =? 111)).
+    + eapply SemA_conv; [eapply SemA_step; [apply Sem_cb; reflexivity|]|reflexivity].
+      eapply SemA_conv; [eapply SemA_bind; [apply SemO_set_l_pop|apply Sem_ret]|reflexivity].
+    + eapply SemA_conv; [eapply SemA_step; [apply Sem_cb; reflexivity|]|reflexivity].
+      eapply SemA_conv; [eapply SemA_step; [apply Sem_changed_if|apply Sem_ret]|reflexivity].
 Qed.
 
 Lemma Sem_widget_mouse_event b cl rw :
@@ -282,22 +399,33 @@ Proof.
   eapply Sem_conv; [eapply Sem_seq; [apply Sem_changed_if|apply Sem_ret]|reflexivity].
 Qed.
 
-Hypothesis wf : wf_config c.
-
-Lemma Sem_topmost_mouse_event b cl rw :
-  Sem (topmost_mouse_event c p b cl rw)
-      (if w_has_mouse c then overlay_spec c ++ [TMouse b cl rw] else [])
-      (if w_has_mouse c then widget_mouse c b else false).
+Lemma Sem_topmost_mouse_event b cl rw o :
+  SemO o (topmost_mouse_event c p b cl rw)
+      (if pop_shown c o then overlay_spec c
+       else if w_has_mouse c then overlay_spec c ++ [TMouse b cl rw] else [])
+      (if pop_shown c o then false else if w_has_mouse c then widget_mouse c b else false) o.
 Proof.
-  unfold topmost_mouse_event. destruct (c_pop_ups c) eqn:Epu.
-  - rewrite (wf Epu). apply Sem_seq; [apply Sem_update_overlay|apply Sem_widget_mouse_event].
-  - destruct (w_has_mouse c).
+  intros al. unfold topmost_mouse_event. destruct (c_pop_ups c) eqn:Epu.
+  - rewrite (wf_mouse Epu). destruct (pop_shown c o) eqn:Eps.
+    + eapply SemA_conv; [eapply SemA_bind; [apply SemA_update_overlay|]|apply app_nil_r].
+      apply SemA_get_overlay. rewrite Eps. apply Sem_ret.
+    + eapply SemA_bind; [apply SemA_update_overlay|].
+      apply SemA_get_overlay. rewrite Eps. apply Sem_widget_mouse_event.
+  - unfold pop_shown. rewrite Epu. cbn [andb]. destruct (w_has_mouse c).
     + unfold overlay_spec. rewrite Epu. cbn [app]. apply Sem_widget_mouse_event.
     + apply Sem_ret.
 Qed.
 
-Lemma Sem_topmost_render : Sem (topmost_render c p) (overlay_spec c ++ [TRender]) tt.
-Proof. unfold topmost_render. apply Sem_seq; [apply Sem_update_overlay|apply Sem_cb; reflexivity]. Qed.
+Lemma Sem_topmost_render o :
+  SemO o (topmost_render c p) (overlay_spec c ++ (if pop_shown c o then [TRender; TRender] else [TRender])) tt o.
+Proof.
+  intros al. unfold topmost_render.
+  eapply SemA_bind; [apply SemA_update_overlay|]. apply SemA_get_overlay.
+  destruct (pop_shown c o).
+  - change [TRender; TRender] with ([TRender] ++ [TRender]).
+    apply (Sem_seq (cb p TRender) (cb p TRender)); apply Sem_cb; reflexivity.
+  - apply Sem_cb; reflexivity.
+Qed.
 
 (* ---------- MainLoop input pipeline ---------- *)
 Lemma Sem_input_filter ks : Sem (input_filter c p ks) (spec_filter c ks) (filtered c ks).
@@ -323,24 +451,37 @@ Proof.
   unfold after_widget, spec_after. destruct (is_redraw k); [apply Sem_screen_clear|apply Sem_unhandled_input].
 Qed.
 
-Lemma Sem_process_key k : Sem (process_key c p k) (spec_key c k) tt.
+Lemma SemO_process_key o k : SemO o (process_key c p k) (fst (spec_key c o k)) tt (snd (spec_key c o k)).
 Proof.
   destruct k as [|x|b cl rw]; cbn [process_key spec_key].
-  - apply Sem_ret.
-  - destruct (w_selectable c); [|apply Sem_after_widget].
-    rewrite app_assoc. eapply Sem_bind; [apply Sem_topmost_keypress|].
-    destruct (widget_keypress c x =? 0); [apply Sem_ret|apply Sem_after_widget].
-  - pose proof (Sem_topmost_mouse_event b cl rw) as H. destruct (w_has_mouse c).
-    + rewrite app_assoc. eapply Sem_bind; [exact H|].
-      destruct (widget_mouse c b); [apply Sem_ret|apply Sem_after_widget].
-    + eapply Sem_conv; [eapply Sem_bind; [exact H|apply Sem_after_widget]|reflexivity].
+  - cbn [fst snd]. apply Sem_ret.
+  - destruct (w_selectable c); cbn [fst snd]; [|apply Sem_after_widget].
+    rewrite app_assoc. eapply SemO_bind; [apply SemO_topmost_keypress|].
+    destruct (keypress_result c o x =? 0); [apply Sem_ret|apply Sem_after_widget].
+  - pose proof (Sem_topmost_mouse_event b cl rw o) as H.
+    destruct (pop_shown c o); cbn [fst snd].
+    + eapply SemO_bind; [exact H|]. apply Sem_after_widget.
+    + destruct (w_has_mouse c); cbn [fst snd].
+      * rewrite app_assoc. eapply SemO_bind; [exact H|].
+        destruct (widget_mouse c b); [apply Sem_ret|apply Sem_after_widget].
+      * eapply SemO_conv; [eapply SemO_bind; [exact H|apply Sem_after_widget]|reflexivity].
 Qed.
+
 
 Lemma Sem_for_each {X} (f : X -> M unit) (S : X -> list tev) l :
   (forall x, Sem (f x) (S x) tt) -> Sem (for_each f l) (flat_map S l) tt.
 Proof.
   intros H. induction l as [|x l IH]; cbn [for_each flat_map]; [apply Sem_ret|].
   apply Sem_seq; [apply H|exact IH].
+Qed.
+
+(* iteration that threads the pop-up state *)
+Lemma SemO_for_each {X} (f : X -> M unit) (S : bool -> X -> list tev * bool) :
+  (forall o x, SemO o (f x) (fst (S o x)) tt (snd (S o x))) ->
+  forall l o, SemO o (for_each f l) (fst (thread S o l)) tt (snd (thread S o l)).
+Proof.
+  intros H. induction l as [|x l IH]; intros o; cbn [for_each thread fst snd]; [apply Sem_ret|].
+  eapply SemO_bind; [apply H|apply IH].
 Qed.
 
 Lemma Sem_size_check (sk : bool) :
@@ -350,25 +491,31 @@ Proof.
   eapply Sem_conv; [eapply Sem_seq; [apply Sem_emit_silent; reflexivity|apply Sem_set_size_known]|reflexivity].
 Qed.
 
-Lemma Sem_process_input ks : Sem (process_input c p ks) (flat_map (spec_key c) ks) tt.
+Lemma SemO_process_input o ks :
+  SemO o (process_input c p ks) (fst (spec_keys c o ks)) tt (snd (spec_keys c o ks)).
 Proof.
-  unfold process_input. apply Sem_get. intros sk.
-  eapply Sem_conv; [eapply Sem_seq; [apply Sem_size_check|]|apply app_nil_l].
-  apply Sem_for_each. apply Sem_process_key.
+  unfold process_input. apply SemO_get. intros sk.
+  eapply SemO_conv; [eapply SemO_step; [apply Sem_size_check|]|apply app_nil_l].
+  apply SemO_for_each. intros o1 k. apply SemO_process_key.
 Qed.
 
-Lemma Sem_update ks : Sem (update c p ks) (spec_update c ks) tt.
+Lemma SemO_update o ks :
+  SemO o (update c p ks) (fst (spec_update c o ks)) tt (snd (spec_update c o ks)).
 Proof.
-  unfold update, spec_update. eapply Sem_bind; [apply Sem_input_filter|].
-  destruct (filtered c ks) as [|k ks'] eqn:E; cbn [is_nil]; [apply Sem_ret|].
-  eapply Sem_conv; [eapply Sem_seq; [apply Sem_process_input|]|apply app_nil_r].
+  unfold update, spec_update. cbn [fst snd]. eapply SemO_step; [apply Sem_input_filter|].
+  destruct (filtered c ks) as [|k ks'] eqn:E; cbn [is_nil]; [cbn [spec_keys thread fst snd]; apply Sem_ret|].
+  eapply SemO_conv; [eapply SemO_bind; [apply SemO_process_input|]|apply app_nil_r].
   destruct (has_resize (k :: ks')); [apply Sem_set_size_known|apply Sem_ret].
 Qed.
 
 (* ---------- redraw ---------- *)
 Lemma Sem_get_started {B} (k : bool -> M B) L w :
   Sem (k true) L w -> Sem (bindM (get (fun s => s_started (scr s))) k) L w.
-Proof. intros H al s Hs Ha. unfold bindM, get. rewrite Hs. apply H; assumption. Qed.
+Proof. intros H o al s Hs Hp Ha. unfold bindM, get. rewrite Hs. apply H; assumption. Qed.
+
+Lemma SemO_get_started {B} o o' (k : bool -> M B) L w :
+  SemO o (k true) L w o' -> SemO o (bindM (get (fun s => s_started (scr s))) k) L w o'.
+Proof. intros H al s Hs Hp Ha. unfold bindM, get. rewrite Hs. apply H; assumption. Qed.
 
 Lemma Sem_screen_draw_screen : Sem (screen_draw_screen c) [TDraw] tt.
 Proof.
@@ -384,42 +531,49 @@ Proof.
   eapply Sem_conv; [eapply Sem_seq; [apply Sem_set_buf_ok|apply Sem_set_buf_canvas]|reflexivity].
 Qed.
 
-Lemma Sem_draw_screen : Sem (draw_screen c p) (spec_draw c) tt.
+Lemma SemO_draw_screen o : SemO o (draw_screen c p) (spec_draw c o) tt o.
 Proof.
-  unfold draw_screen, spec_draw. apply Sem_get. intros sk.
-  eapply Sem_conv; [eapply Sem_seq; [apply Sem_size_check|]|apply app_nil_l].
-  eapply Sem_conv; [eapply Sem_seq; [apply Sem_topmost_render|apply Sem_screen_draw_screen]|].
-  rewrite <- app_assoc. reflexivity.
+  unfold draw_screen, spec_draw. apply SemO_get. intros sk.
+  eapply SemO_conv; [eapply SemO_step; [apply Sem_size_check|]|apply app_nil_l].
+  eapply SemO_conv; [eapply SemO_bind; [apply Sem_topmost_render|apply Sem_screen_draw_screen]|].
+  rewrite <- !app_assoc. reflexivity.
 Qed.
 
-Lemma Sem_entering_idle : Sem (entering_idle c p) (spec_draw c) tt.
-Proof. unfold entering_idle. apply Sem_get_started. apply Sem_draw_screen. Qed.
+Lemma SemO_entering_idle o : SemO o (entering_idle c p) (spec_draw c o) tt o.
+Proof. unfold entering_idle. apply SemO_get_started. apply SemO_draw_screen. Qed.
 
 (* ---------- the event loop ---------- *)
-Lemma Sem_fire_alarm a : Sem (fire_alarm c p a) (spec_alarm c a) tt.
-Proof. destruct a; cbn [fire_alarm spec_alarm]; [apply Sem_cb; reflexivity|apply Sem_entering_idle]. Qed.
+Lemma SemO_fire_alarm o a : SemO o (fire_alarm c p a) (spec_alarm c o a) tt o.
+Proof. destruct a; cbn [fire_alarm spec_alarm]; [apply Sem_cb; reflexivity|apply SemO_entering_idle]. Qed.
 
-Lemma Sem_deliver e : Sem (deliver c p e) (spec_event c e) tt.
+Lemma SemO_fire_alarms o al0 : SemO o (for_each (fire_alarm c p) al0) (flat_map (spec_alarm c o) al0) tt o.
 Proof.
-  destruct e; cbn [deliver spec_event]; try (apply Sem_cb; reflexivity); try apply Sem_update.
-  eapply Sem_conv; [eapply Sem_seq; [apply Sem_set_buf_ok|apply Sem_update]|apply app_nil_l].
+  induction al0 as [|a r IH]; cbn [for_each flat_map]; [apply Sem_ret|].
+  eapply SemO_bind; [apply SemO_fire_alarm|exact IH].
 Qed.
 
-Lemma Sem_do_round r : Sem (do_round c p r) (spec_round c r) tt.
+Lemma SemO_deliver o e : SemO o (deliver c p e) (fst (spec_event c o e)) tt (snd (spec_event c o e)).
 Proof.
-  unfold do_round, spec_round. apply Sem_seq; [apply Sem_for_each; apply Sem_deliver|].
-  eapply Sem_conv; [eapply Sem_seq; [apply Sem_entering_idle|apply Sem_emit_silent; reflexivity]|apply app_nil_r].
+  destruct e; cbn [deliver spec_event]; try (cbn [fst snd]; apply Sem_cb; reflexivity); try apply SemO_update.
+  eapply SemO_conv; [eapply SemO_step; [apply Sem_set_buf_ok|apply SemO_update]|apply app_nil_l].
 Qed.
 
-Lemma SemA_quit al : SemA al quit [] (RErr ExitMainLoop) (fun _ => True).
+Lemma SemO_do_round o r : SemO o (do_round c p r) (fst (spec_round c o r)) tt (snd (spec_round c o r)).
 Proof.
-  intros s Hs Ha. unfold quit, bindM, emit, raise. cbn [fst snd cut ncb outcome].
+  unfold do_round, spec_round. cbn [fst snd].
+  eapply SemO_bind; [apply SemO_for_each; intros o1 e; apply SemO_deliver|].
+  eapply SemO_conv; [eapply SemO_bind; [apply SemO_entering_idle|apply Sem_emit_silent; reflexivity]|apply app_nil_r].
+Qed.
+
+Lemma SemA_quit al o : SemA (G al o) quit [] (RErr ExitMainLoop) (fun _ => True).
+Proof.
+  intros s Hs Hp Ha. unfold quit, bindM, emit, raise. cbn [fst snd cut ncb outcome].
   rewrite acts_cons. cbn [is_act is_cb orb]. rewrite !app_nil_r, Z.add_0_r.
   split; [keeps_triv|]. repeat split; reflexivity.
 Qed.
 
 Definition spec_loop (al : list alarm) (rounds : list (list event)) : list tev :=
-  flat_map (spec_alarm c) al ++ spec_draw c ++ flat_map (spec_round c) rounds.
+  flat_map (spec_alarm c false) al ++ spec_draw c false ++ fst (thread (spec_round c) false rounds).
 
 (* the body of event_loop.run(), before ExitMainLoop is swallowed *)
 Definition loop_inner (rounds : list (list event)) : M unit :=
@@ -430,15 +584,15 @@ Definition loop_inner (rounds : list (list event)) : M unit :=
   bindM (emit TWait) (fun _ =>
   bindM (for_each (do_round c p) rounds) (fun _ => quit)))))).
 
-Lemma SemA_loop_inner al rounds : SemA al (loop_inner rounds) (spec_loop al rounds) (RErr ExitMainLoop) (fun _ => True).
+Lemma SemA_loop_inner al rounds :
+  SemA (G al false) (loop_inner rounds) (spec_loop al rounds) (RErr ExitMainLoop) (fun _ => True).
 Proof.
   unfold loop_inner, spec_loop. apply SemA_get_alarms.
   eapply SemA_conv; [eapply SemA_bind; [apply SemA_set_alarms|]|apply app_nil_l].
-  intros al1 <-.
-  eapply SemA_step; [apply Sem_for_each; apply Sem_fire_alarm|].
-  eapply SemA_step; [apply Sem_entering_idle|].
+  eapply SemA_bind; [apply SemO_fire_alarms|].
+  eapply SemA_bind; [apply SemO_entering_idle|].
   eapply SemA_conv; [eapply SemA_step; [apply Sem_emit_silent; reflexivity|]|apply app_nil_l].
-  eapply SemA_conv; [eapply SemA_step; [apply Sem_for_each; apply Sem_do_round|apply SemA_quit]|apply app_nil_r].
+  eapply SemA_conv; [eapply SemA_bind; [apply SemO_for_each; intros o1 r; apply SemO_do_round|apply SemA_quit]|apply app_nil_r].
 Qed.
 
 (* the result of run(): ExitMainLoop (planned, or the harness's final one) is swallowed *)
@@ -446,7 +600,7 @@ Definition loop_result (o : option fault) : res unit :=
   match o with Some (FRaise e) => RErr (UserExc e) | _ => ROk tt end.
 
 Lemma event_loop_run_sem rounds s :
-  s_started (scr s) = true ->
+  s_started (scr s) = true -> pinv s -> l_pop s = false ->
   let L := spec_loop (alarms s) rounds in
   let rs := event_loop_run c p rounds s in
   Keeps s (snd rs) /\
@@ -454,9 +608,9 @@ Lemma event_loop_run_sem rounds s :
   n (snd rs) = n s + ncb (fst (cut P (n s) L)) /\
   fst rs = loop_result (snd (cut P (n s) L)).
 Proof.
-  intros Hs L rs.
+  intros Hs Hp Ho L rs.
   assert (E : rs = suppress_exit (loop_inner rounds) s) by reflexivity.
-  destruct (SemA_loop_inner (alarms s) rounds s Hs eq_refl) as (K & A & N & R & _).
+  destruct (SemA_loop_inner (alarms s) rounds s Hs Hp (conj eq_refl Ho)) as (K & A & N & R & _).
   fold L in A, N, R. rewrite E. unfold suppress_exit.
   destruct (loop_inner rounds s) as [r s1]. cbn [fst snd] in *.
   destruct (snd (cut P (n s) L)) as [[|e]|]; cbn [outcome exn_of] in R; subst r; cbn [fst snd loop_result];
@@ -467,48 +621,49 @@ Qed.
 Definition pend (next : option alarm) (al : list alarm) : list alarm :=
   match next with Some a => a :: al | None => [] end.
 
-Lemma SemA_pop_alarm al :
-  SemA al pop_alarm [] (ROk (match al with [] => None | a :: _ => Some a end)) (eq (tl al)).
+Lemma SemA_pop_alarm al o :
+  SemA (G al o) pop_alarm [] (ROk (match al with [] => None | a :: _ => Some a end)) (G (tl al) o).
 Proof.
-  intros s Hs Ha. unfold pop_alarm, bindM, get. rewrite Ha. destruct al as [|a r].
+  intros s Hs Hp [Ha Ho]. unfold pop_alarm, bindM, get. rewrite Ha. destruct al as [|a r].
   - cbn [ret fst snd cut ncb outcome tl]. rewrite app_nil_r, Z.add_0_r.
-    split; [apply Keeps_refl|]. repeat split; try reflexivity. intros _; symmetry; exact Ha.
+    split; [apply Keeps_refl|]. split; [reflexivity|split; [reflexivity|split; [reflexivity|]]].
+    intros _. split; assumption.
   - unfold set_alarms, ret. cbn [fst snd cut ncb outcome tl]. rewrite app_nil_r, Z.add_0_r.
-    split; [keeps_triv|]. repeat split; reflexivity.
+    split; [keeps_triv|]. split; [reflexivity|split; [reflexivity|split; [reflexivity|]]].
+    intros _. split; [reflexivity|exact Ho].
 Qed.
 
-Lemma SemA_fire_all : forall fuel next,
-  SemA fuel (fire_all c p fuel next) (flat_map (spec_alarm c) (pend next fuel)) (ROk tt)
-       (eq (match next with Some _ => [] | None => fuel end)).
+Lemma SemA_fire_all o : forall fuel next,
+  SemA (G fuel o) (fire_all c p fuel next) (flat_map (spec_alarm c o) (pend next fuel)) (ROk tt)
+       (G (match next with Some _ => [] | None => fuel end) o).
 Proof.
   induction fuel as [|b fuel IH]; intros [a|]; cbn [fire_all pend flat_map].
-  - eapply SemA_conv; [eapply SemA_bind; [apply Sem_fire_alarm|]|reflexivity].
-    intros al1 <-. apply Sem_ret.
+  - eapply SemA_conv; [eapply SemA_bind; [apply SemO_fire_alarm|apply Sem_ret]|reflexivity].
   - apply Sem_ret.
-  - eapply SemA_bind; [apply Sem_fire_alarm|]. intros al1 <-.
+  - eapply SemA_bind; [apply SemO_fire_alarm|].
     eapply SemA_conv; [eapply SemA_bind; [apply SemA_pop_alarm|]|apply app_nil_l].
-    intros al2 <-. cbn [tl]. apply (IH (Some b)).
+    cbn [tl]. apply (IH (Some b)).
   - apply Sem_ret.
 Qed.
 
-Lemma Sem_process_if ks :
-  Sem (if is_nil ks then ret tt else process_input c p ks) (flat_map (spec_key c) ks) tt.
-Proof. destruct ks; cbn [is_nil]; [apply Sem_ret|apply Sem_process_input]. Qed.
+Lemma SemO_process_if o ks :
+  SemO o (if is_nil ks then ret tt else process_input c p ks) (fst (spec_keys c o ks)) tt (snd (spec_keys c o ks)).
+Proof. destruct ks; cbn [is_nil]; [cbn [spec_keys thread fst snd]; apply Sem_ret|apply SemO_process_input]. Qed.
 
 Lemma Sem_resize_check ks : Sem (if has_resize ks then set_size_known false else ret tt) [] tt.
 Proof. destruct (has_resize ks); [apply Sem_set_size_known|apply Sem_ret]. Qed.
 
-Lemma SemA_screen_loop : forall inputs next al,
+Lemma SemA_screen_loop : forall inputs next al o,
   (next = None -> al = []) ->
-  SemA al (screen_loop c p inputs next) (spec_screen_loop c (pend next al) inputs) (RErr ExitMainLoop) (fun _ => True).
+  SemA (G al o) (screen_loop c p inputs next) (spec_screen_loop c o (pend next al) inputs) (RErr ExitMainLoop) (fun _ => True).
 Proof.
-  induction inputs as [|b rest IH]; intros next al Hinv; cbn [screen_loop spec_screen_loop].
+  induction inputs as [|b rest IH]; intros next al o Hinv; cbn [screen_loop spec_screen_loop].
   - eapply SemA_conv; [eapply SemA_step; [apply Sem_emit_silent; reflexivity|]|apply app_nil_l].
     eapply SemA_conv; [eapply SemA_step; [apply Sem_emit_silent; reflexivity|apply SemA_quit]|apply app_nil_l].
   - eapply SemA_conv; [eapply SemA_step; [apply Sem_emit_silent; reflexivity|]|apply app_nil_l].
     eapply SemA_conv; [eapply SemA_step; [apply Sem_emit_silent; reflexivity|]|apply app_nil_l].
-    assert (Step : forall nx, (nx = None -> al = []) -> pend nx al <> [] \/ b <> [] ->
-              SemA al
+    assert (Step : forall nx, (nx = None -> al = []) ->
+              SemA (G al o)
                 (bindM (input_filter c p b) (fun ks' =>
                  bindM (if is_nil ks' then ret tt else process_input c p ks') (fun _ =>
                  bindM (get alarms) (fun al0 =>
@@ -516,35 +671,38 @@ Proof.
                  bindM (if has_resize ks' then set_size_known false else ret tt) (fun _ =>
                  bindM (draw_screen c p) (fun _ =>
                  bindM pop_alarm (fun nx' => screen_loop c p rest nx'))))))))
-                (spec_update c b ++ flat_map (spec_alarm c) (pend nx al) ++ spec_draw c ++ spec_screen_loop c [] rest)
+                (fst (spec_update c o b) ++ flat_map (spec_alarm c (snd (spec_update c o b))) (pend nx al) ++
+                 spec_draw c (snd (spec_update c o b)) ++ spec_screen_loop c (snd (spec_update c o b)) [] rest)
                 (RErr ExitMainLoop) (fun _ => True)).
-    { intros nx Hnx _. unfold spec_update. rewrite <- app_assoc.
+    { intros nx Hnx. unfold spec_update. cbn [fst snd]. rewrite <- app_assoc.
       eapply SemA_step; [apply Sem_input_filter|].
-      eapply SemA_step; [apply Sem_process_if|].
+      eapply SemA_bind; [apply SemO_process_if|].
       apply SemA_get_alarms.
-      eapply SemA_bind; [apply SemA_fire_all|]. intros al1 Hal1.
-      assert (al1 = []) as -> by (destruct nx; [symmetry; exact Hal1|rewrite <- Hal1; apply Hnx; reflexivity]).
+      eapply SemA_bind; [apply SemA_fire_all|].
+      assert (Eal : (match nx with Some _ => [] | None => al end) = []) by (destruct nx; [reflexivity|apply Hnx; reflexivity]).
+      rewrite Eal.
       eapply SemA_conv; [eapply SemA_step; [apply Sem_resize_check|]|apply app_nil_l].
-      eapply SemA_step; [apply Sem_draw_screen|].
+      eapply SemA_bind; [apply SemO_draw_screen|].
       eapply SemA_conv; [eapply SemA_bind; [apply SemA_pop_alarm|]|apply app_nil_l].
-      intros al2 <-. cbn [tl]. apply (IH None []). reflexivity. }
+      cbn [tl]. apply (IH None []). reflexivity. }
     destruct next as [a|].
     + rewrite andb_false_r. cbn [pend is_nil]. rewrite andb_false_r.
-      apply (Step (Some a)); [discriminate|left; discriminate].
+      apply (Step (Some a)). discriminate.
     + specialize (Hinv eq_refl). subst al. cbn [pend is_nil]. rewrite !andb_true_r.
       destruct b as [|k0 b0]; cbn [is_nil].
       * apply (IH None []). reflexivity.
-      * apply (Step None); [reflexivity|right; discriminate].
+      * apply (Step None). reflexivity.
 Qed.
 
 Lemma SemA_run_screen_event_loop al inputs :
-  SemA al (run_screen_event_loop c p inputs) (spec_draw c ++ spec_screen_loop c al inputs) (RErr ExitMainLoop) (fun _ => True).
+  SemA (G al false) (run_screen_event_loop c p inputs)
+       (spec_draw c false ++ spec_screen_loop c false al inputs) (RErr ExitMainLoop) (fun _ => True).
 Proof.
-  unfold run_screen_event_loop. eapply SemA_step; [apply Sem_draw_screen|].
+  unfold run_screen_event_loop. eapply SemA_bind; [apply SemO_draw_screen|].
   eapply SemA_conv; [eapply SemA_bind; [apply SemA_pop_alarm|]|apply app_nil_l].
-  intros al1 <-. destruct al as [|a r]; cbn [tl].
-  - apply (SemA_screen_loop inputs None []). reflexivity.
-  - apply (SemA_screen_loop inputs (Some a) r). discriminate.
+  destruct al as [|a r]; cbn [tl].
+  - apply (SemA_screen_loop inputs None [] false). reflexivity.
+  - apply (SemA_screen_loop inputs (Some a) r false). discriminate.
 Qed.
 
 End WithConfig.
@@ -583,9 +741,10 @@ Lemma hook_start_state c ti w t cn :
   fst (prefix c (init_st T0)) = ROk tt /\
   fst rs = ROk tt /\ n (snd rs) = 0 /\ scr (snd rs) = SC c T0 /\ tm (snd rs) = TM c T0 /\
   alarms (snd rs) = map AUser (c_pre_alarms c) ++ [AEnteringIdle] /\
-  acts (snd rs) = [].
+  acts (snd rs) = [] /\
+  (l_pop (snd rs) = false /\ t_pop (snd rs) = false /\ t_overlay (snd rs) = false).
 Proof.
-  destruct c as [hook filt unh hm pu pa fo ia ps pre sel hasm wk wm cur]. cbn [c_hook]. intros ->.
+  destruct c as [hook filt unh hm pu pa fo ia ps pre sel hasm wk wm cur lau pk]. cbn [c_hook]. intros ->.
   Time destruct hm, pa, fo, ia, ps; vm_compute; repeat split; reflexivity.
 Qed.
 
@@ -701,8 +860,8 @@ Lemma hook_stop_state c ti w t cn (s2 : st) :
   (fst (ml_stop c s2) = ROk tt /\ tm (snd (ml_stop c s2)) = T1 /\
    s_started (scr (snd (ml_stop c s2))) = false).
 Proof.
-  destruct c as [hook filt unh hm pu pa fo ia ps pre sel hasm wk wm cur]. cbn [c_hook]. intros ->.
-  destruct s2 as [n2 tr2 sc2 tm2 sk2 cn2 ir2 hk2 al2 ws2 bo2 bc2]. cbn [scr tm]. intros Hsc Htm. subst sc2.
+  destruct c as [hook filt unh hm pu pa fo ia ps pre sel hasm wk wm cur lau pk]. cbn [c_hook]. intros ->.
+  destruct s2 as [n2 tr2 sc2 tm2 sk2 cn2 ir2 hk2 al2 ws2 bo2 bc2 lp2 tp2 ov2]. cbn [scr tm]. intros Hsc Htm. subst sc2.
   destruct tm2 as [a1 a2 a3 a4 a5 a6 a7 a8 a9 a10 a11 a12].
   unfold TM, normal_term in Htm. cbn [c_handle_mouse c_paste c_focus c_isatty t_tios t_winch t_tstp t_cont fst] in Htm.
   change (set_mode 25 true (Term a1 a2 a3 a4 a5 a6 a7 a8 a9 a10 a11 a12)) with (Term a1 true a3 a4 a5 a6 a7 a8 a9 a10 a11 a12) in Htm.
@@ -723,12 +882,13 @@ Theorem hook_master c p rounds inputs ti w t cn :
   tm (snd rs) = normal_term ti w t cn /\ s_started (scr (snd rs)) = false.
 Proof.
   intros Hh Hwf. cbv zeta. rewrite session_unfold.
-  destruct (hook_start_state c ti w t cn Hh) as (P1 & R1 & N1 & S1 & T1 & A1 & Ac1).
+  destruct (hook_start_state c ti w t cn Hh) as (P1 & R1 & N1 & S1 & T1 & A1 & Ac1 & LP & TP & OV).
   destruct (prefix c (init_st (normal_term ti w t cn))) as [r0 s0']. cbn [fst snd] in *. subst r0.
   unfold ml_run, ml_run_inner, suppress_exit.
   destruct (ml_start c s0') as [r1 s1]. cbn [fst snd] in *. subst r1.
   assert (Hst : s_started (scr s1) = true) by (rewrite S1; reflexivity).
-  pose proof (event_loop_run_sem c p Hwf rounds s1 Hst) as H. cbv zeta in H.
+  assert (Hpi : pinv c s1) by (unfold pinv; rewrite TP, OV; split; discriminate).
+  pose proof (event_loop_run_sem c p Hwf rounds s1 Hst Hpi LP) as H. cbv zeta in H.
   rewrite A1, N1, Ac1 in H. cbn [app] in H.
   change (spec_loop c (map AUser (c_pre_alarms c) ++ [AEnteringIdle]) rounds) with (spec_hook_session c rounds) in H.
   destruct H as (K & A & N & R).
@@ -756,9 +916,10 @@ Lemma plain_start_state c ti w t cn :
   fst (prefix c (init_st T0)) = ROk tt /\
   fst rs = RErr CantUseExternalLoop /\ n (snd rs) = 0 /\ scr (snd rs) = SCp /\ tm (snd rs) = set_plain true T0 /\
   alarms (snd rs) = map AUser (c_pre_alarms c) /\
-  acts (snd rs) = [].
+  acts (snd rs) = [] /\
+  (l_pop (snd rs) = false /\ t_pop (snd rs) = false /\ t_overlay (snd rs) = false).
 Proof.
-  destruct c as [hook filt unh hm pu pa fo ia ps pre sel hasm wk wm cur]. cbn [c_hook]. intros ->.
+  destruct c as [hook filt unh hm pu pa fo ia ps pre sel hasm wk wm cur lau pk]. cbn [c_hook]. intros ->.
   destruct hm, ps; vm_compute; repeat split; reflexivity.
 Qed.
 
@@ -769,8 +930,8 @@ Lemma plain_stop_state c ti w t cn (s2 : st) :
   fst (screen_stop c s2) = ROk tt /\ tm (snd (screen_stop c s2)) = T0 /\
   s_started (scr (snd (screen_stop c s2))) = false.
 Proof.
-  destruct c as [hook filt unh hm pu pa fo ia ps pre sel hasm wk wm cur]. cbn [c_hook]. intros ->.
-  destruct s2 as [n2 tr2 sc2 tm2 sk2 cn2 ir2 hk2 al2 ws2 bo2 bc2]. cbn [scr tm]. intros -> ->.
+  destruct c as [hook filt unh hm pu pa fo ia ps pre sel hasm wk wm cur lau pk]. cbn [c_hook]. intros ->.
+  destruct s2 as [n2 tr2 sc2 tm2 sk2 cn2 ir2 hk2 al2 ws2 bo2 bc2 lp2 tp2 ov2]. cbn [scr tm]. intros -> ->.
   vm_compute. repeat split; reflexivity.
 Qed.
 
@@ -783,17 +944,18 @@ Theorem plain_master c p rounds inputs ti w t cn :
   tm (snd rs) = T0 /\ s_started (scr (snd rs)) = false.
 Proof.
   intros Hh Hwf. cbv zeta. rewrite session_unfold.
-  destruct (plain_start_state c ti w t cn Hh) as (P1 & R1 & N1 & S1 & T1 & A1 & Ac1).
+  destruct (plain_start_state c ti w t cn Hh) as (P1 & R1 & N1 & S1 & T1 & A1 & Ac1 & LP & TP & OV).
   destruct (prefix c (init_st (normal_term ti w t cn))) as [r0 s0']. cbn [fst snd] in *. subst r0.
   unfold ml_run, ml_run_inner, suppress_exit.
   destruct (ml_start c s0') as [r1 s1]. cbn [fst snd] in *. subst r1.
   assert (Hst : s_started (scr s1) = true) by (rewrite S1; reflexivity).
-  destruct (SemA_run_screen_event_loop c p Hwf (alarms s1) inputs s1 Hst eq_refl) as (K & A & N & R & _).
+  assert (Hpi : pinv c s1) by (unfold pinv; rewrite TP, OV; split; discriminate).
+  destruct (SemA_run_screen_event_loop c p Hwf (alarms s1) inputs s1 Hst Hpi (conj eq_refl LP)) as (K & A & N & R & _).
   rewrite A1, N1, Ac1 in *. cbn [app] in A. rewrite Z.add_0_l in N.
-  change (spec_draw c ++ spec_screen_loop c (map AUser (c_pre_alarms c)) inputs) with (spec_plain_session c inputs) in *.
+  change (spec_draw c false ++ spec_screen_loop c false (map AUser (c_pre_alarms c)) inputs) with (spec_plain_session c inputs) in *.
   unfold finally.
   destruct (run_screen_event_loop c p inputs s1) as [r2 s2]. cbn [fst snd] in *.
-  destruct K as (K1 & _ & K3). rewrite S1 in K1.
+  destruct K as (K1 & _ & K3 & _). rewrite S1 in K1.
   assert (K2 : tm s2 = set_plain true (normal_term ti w t cn)) by (rewrite (K3 Hh); exact T1).
   destruct (plain_stop_state c ti w t cn s2 Hh K1 K2) as (F1 & F2 & F3).
   destruct (Silent_screen_stop c s2) as [Q1 Q2].
@@ -910,43 +1072,111 @@ Qed.
 Lemma In_overlay_spec c t : In t (overlay_spec c) -> t = TRender.
 Proof. unfold overlay_spec. destruct (c_pop_ups c); cbn; intuition congruence. Qed.
 
-(* a key the selectable topmost widget was offered reaches unhandled_input exactly when the widget
-   returned a key (did not handle it) and that key is not the REDRAW_SCREEN command *)
 Ltac not_in_there H :=
   exfalso; repeat (destruct H as [H|H]); try discriminate H; try contradiction;
-  apply In_overlay_spec in H; discriminate H.
+  try (apply In_overlay_spec in H; discriminate H).
 
-Lemma unhandled_iff_lemma c x :
+(* a key offered to the topmost widget (the open pop-up, else the body behind the launcher) reaches
+   unhandled_input exactly when that widget returned a key (did not handle it) and that key is not the
+   REDRAW_SCREEN command *)
+Lemma unhandled_iff_lemma c o x :
   w_selectable c = true -> c_unhandled c <> None ->
-  let r := widget_keypress c x in
-  In (TUnhandled (KKey r)) (spec_key c (KKey x)) <-> (r <> 0 /\ r <> 12).
+  let r := keypress_result c o x in
+  In (TUnhandled (KKey r)) (fst (spec_key c o (KKey x))) <-> (r <> 0 /\ r <> 12).
 Proof.
-  intros Hs Hu r. cbn [spec_key]. rewrite Hs. fold r.
-  rewrite !in_app_iff. cbn [In]. unfold spec_after, spec_unhandled, is_redraw.
+  intros Hs Hu r. cbn [spec_key]. rewrite Hs. cbn [fst]. fold r.
+  rewrite !in_app_iff. cbn [In]. unfold spec_after, spec_unhandled, is_redraw, keypress_cb.
   destruct (c_unhandled c) as [u|]; [clear Hu|congruence].
   destruct (r =? 0) eqn:E0; [apply Z.eqb_eq in E0|apply Z.eqb_neq in E0].
-  - split; [|intros [H _]; congruence]. intros H. not_in_there H.
+  - split; [|intros [H _]; congruence]. intros H. destruct (pop_shown c o); not_in_there H.
   - destruct (r =? 12) eqn:E12; [apply Z.eqb_eq in E12|apply Z.eqb_neq in E12]; cbn [In].
-    + split; [|intros [_ H]; congruence]. intros H. not_in_there H.
+    + split; [|intros [_ H]; congruence]. intros H. destruct (pop_shown c o); not_in_there H.
     + split; [intros _; split; assumption|]. intros _. right. right. left. reflexivity.
 Qed.
 
-(* the same for mouse events *)
-Lemma mouse_unhandled_iff_lemma c b cl rw :
+(* mouse events: the body's mouse_event while no pop-up is shown; an open pop-up does not handle them *)
+Lemma mouse_unhandled_iff_lemma c o b cl rw :
   w_has_mouse c = true -> c_unhandled c <> None ->
-  In (TUnhandled (KMouse b cl rw)) (spec_key c (KMouse b cl rw)) <-> widget_mouse c b = false.
+  In (TUnhandled (KMouse b cl rw)) (fst (spec_key c o (KMouse b cl rw))) <->
+  (pop_shown c o = true \/ widget_mouse c b = false).
 Proof.
-  intros Hm Hu. cbn [spec_key]. rewrite Hm. rewrite !in_app_iff. cbn [In].
-  unfold spec_after, spec_unhandled. cbn [is_redraw].
+  intros Hm Hu. cbn [spec_key]. unfold spec_after, spec_unhandled. cbn [is_redraw].
   destruct (c_unhandled c) as [u|]; [clear Hu|congruence].
-  destruct (widget_mouse c b); cbn [In].
-  - split; [|discriminate]. intros H. not_in_there H.
-  - split; [reflexivity|]. intros _. right. right. left. reflexivity.
+  destruct (pop_shown c o); cbn [fst].
+  - rewrite in_app_iff. cbn [In]. split; [intros _; left; reflexivity|]. intros _. right. left. reflexivity.
+  - rewrite Hm. cbn [fst]. rewrite !in_app_iff. cbn [In]. destruct (widget_mouse c b); cbn [In].
+    + split; [|intros [H|H]; discriminate]. intros H. not_in_there H.
+    + split; [intros _; right; reflexivity|]. intros _. right. right. left. reflexivity.
 Qed.
 
 (* every round of events ends with: render the topmost widget, then screen.draw_screen *)
-Lemma round_ends_with_redraw_lemma c r : exists l, spec_round c r = l ++ [TRender; TDraw].
+Lemma round_ends_with_redraw_lemma c o r : exists l, fst (spec_round c o r) = l ++ [TRender; TDraw].
 Proof.
-  unfold spec_round, spec_draw. exists (flat_map (spec_event c) r ++ overlay_spec c).
-  rewrite <- app_assoc. reflexivity.
+  unfold spec_round, spec_draw. cbn [fst].
+  destruct (pop_shown c (snd (thread (spec_event c) o r))).
+  - exists (fst (thread (spec_event c) o r) ++ overlay_spec c ++ [TRender]).
+    rewrite <- !app_assoc. reflexivity.
+  - exists (fst (thread (spec_event c) o r) ++ overlay_spec c).
+    rewrite <- !app_assoc. reflexivity.
+Qed.
+
+(* ---------- pop-up routing over whole histories of keys ---------- *)
+(* the obvious automaton: 'o' (111) typed while the pop-up is closed opens it, 'x' (120) typed into the open
+   pop-up closes it; every key goes to the pop-up while it is open and to the body (launcher) otherwise *)
+Definition is_keypress (t : tev) : bool :=
+  match t with TKeypress _ | TPopKey _ => true | _ => false end.
+Definition route_next (o : bool) (x : Z) : bool :=
+  if o then negb (x =? 120) else (x =? 111).
+Fixpoint route (o : bool) (ks : list key) : list tev :=
+  match ks with
+  | [] => []
+  | KKey x :: r => (if o then TPopKey x else TKeypress x) :: route (route_next o x) r
+  | _ :: r => route o r
+  end.
+Fixpoint route_state (o : bool) (ks : list key) : bool :=
+  match ks with
+  | [] => o
+  | KKey x :: r => route_state (route_next o x) r
+  | _ :: r => route_state o r
+  end.
+
+Lemma filter_keypress_overlay c : filter is_keypress (overlay_spec c) = [].
+Proof. unfold overlay_spec. destruct (c_pop_ups c); reflexivity. Qed.
+Lemma filter_keypress_after c k : filter is_keypress (spec_after c k) = [].
+Proof.
+  unfold spec_after, spec_unhandled. destruct (is_redraw k); [reflexivity|].
+  destruct (c_unhandled c); reflexivity.
+Qed.
+
+Lemma popup_routing_lemma c : c_pop_ups c = true -> c_launcher c = true -> w_selectable c = true ->
+  forall ks o,
+    filter is_keypress (fst (spec_keys c o ks)) = route o ks /\
+    snd (spec_keys c o ks) = route_state o ks.
+Proof.
+  intros Hpu Hl Hsel. induction ks as [|k r IH]; intros o; cbn [spec_keys thread fst snd route route_state].
+  - split; reflexivity.
+  - change (thread (spec_key c)) with (spec_keys c). rewrite filter_app.
+    destruct k as [|x|b cl rw]; cbn [spec_key].
+    + cbn [fst snd filter app]. apply IH.
+    + rewrite Hsel. cbn [fst snd]. rewrite !filter_app, filter_keypress_overlay. cbn [app].
+      assert (Hn : keypress_open c o x = route_next o x).
+      { unfold keypress_open, route_next, pop_shown. rewrite Hpu, Hl. cbn [andb].
+        destruct o; [destruct (x =? 120); reflexivity|destruct (x =? 111); reflexivity]. }
+      assert (Hc : keypress_cb c o x = if o then TPopKey x else TKeypress x).
+      { unfold keypress_cb, pop_shown. rewrite Hpu. cbn [andb]. reflexivity. }
+      rewrite Hn, Hc.
+      replace (filter is_keypress (if keypress_result c o x =? 0 then [] else spec_after c (KKey (keypress_result c o x)))) with (@nil tev)
+        by (destruct (keypress_result c o x =? 0); [reflexivity|symmetry; apply filter_keypress_after]).
+      destruct (IH (route_next o x)) as [IH1 IH2]. rewrite IH1, IH2.
+      destruct o; split; reflexivity.
+    + assert (E : filter is_keypress (fst (if pop_shown c o then (overlay_spec c ++ spec_after c (KMouse b cl rw), o)
+                   else if w_has_mouse c then (overlay_spec c ++ [TMouse b cl rw] ++ (if widget_mouse c b then [] else spec_after c (KMouse b cl rw)), o)
+                   else (spec_after c (KMouse b cl rw), o))) = []
+                /\ snd (if pop_shown c o then (overlay_spec c ++ spec_after c (KMouse b cl rw), o)
+                   else if w_has_mouse c then (overlay_spec c ++ [TMouse b cl rw] ++ (if widget_mouse c b then [] else spec_after c (KMouse b cl rw)), o)
+                   else (spec_after c (KMouse b cl rw), o)) = o).
+      { destruct (pop_shown c o); [|destruct (w_has_mouse c)]; cbn [fst snd];
+          rewrite ?filter_app, ?filter_keypress_overlay, ?filter_keypress_after; cbn [filter is_keypress app];
+          try (destruct (widget_mouse c b); rewrite ?filter_keypress_after); split; reflexivity. }
+      destruct E as [E1 E2]. rewrite E1, E2. cbn [app]. apply IH.
 Qed.
